@@ -14,3 +14,5 @@ EXPLANATION = ("The real _mi_heap_area_visit_blocks run by CBMC on a contiguous 
                "(up to 3 blocks at arbitrary positions), symbolic stop point of the visitor; witness block: live => reported exactly once, free => never; count == used; stop is propagated. "
                "mi_abandoned_visit_blocks as a contract with a cursor that yields at most 2 segments. All pairs are BOUNDED stand-ins (page capacity, free-list length, number of segments); "
                "fast division for every size class and block index is proved separately (C16).")
+import visit_common as _vc
+PAIRS += _vc.pairs()      # mi_heap_visit_pages reaches every page of every queue, including the full queue
